@@ -37,6 +37,7 @@ const ORDER_TARGETS: &[(u32, &str, &str)] = &[
     (40, "crates/ripd/src/session.rs", "run_session"),
     (41, "crates/ripd/src/session.rs", "run_openresponses_agent_loop"),
     (42, "crates/ripd/src/tasks/mod.rs", "run_task"),
+    (43, "crates/ripd/src/session.rs", "stream_openresponses_request"),
 ];
 
 const CONST_TARGETS: &[(&str, &str)] = &[
@@ -68,6 +69,8 @@ enum Eff {
     RunProcess,
     FsWrite,
     FsFlush,
+    /// branch markers and gates (C11/C16): which arm of a decision the following tokens belong to
+    Mark(&'static str),
 }
 
 fn lock_id(name: &str) -> u32 {
@@ -101,6 +104,7 @@ fn eff_lean(e: &Eff) -> String {
         Eff::RunProcess => ".runProcess".into(),
         Eff::FsWrite => ".fsWrite".into(),
         Eff::FsFlush => ".fsFlush".into(),
+        Eff::Mark(m) => format!(".{m}"),
     }
 }
 
@@ -153,6 +157,7 @@ impl<'ast> Visit<'ast> for Collect {
             "emit_all" => self.out.push(Eff::EmitBatch),
             "write_all" | "write" if recv == "file" || recv == "writer" || recv == "guard" => self.out.push(Eff::FsWrite),
             "flush" => self.out.push(Eff::FsFlush),
+            "send" if recv == "request" => self.out.push(Eff::Mark("httpSend")),
             _ => {}
         }
     }
@@ -268,9 +273,37 @@ fn stmt_expr_inner(e: &syn::Expr, out: &mut Vec<Eff>, scope_guards: &mut Vec<u32
         syn::Expr::If(i) => {
             let cond = effects_of_expr(&i.cond);
             out.extend(cond.iter().cloned());
+            // decisions the obligations of C11/C16 depend on: mark which arm the tokens belong to
+            let cond_s: String = i.cond.to_token_stream().to_string().split_whitespace().collect();
+            let neg = cond_s.starts_with('!');
+            let marks: Option<(&'static str, &'static str)> = if cond_s.contains("requires_workspace_lock(") {
+                Some(if neg { ("brNoLock", "brNeedsLock") } else { ("brNeedsLock", "brNoLock") })
+            } else if cond_s.contains("allows_function(") {
+                Some(if neg { ("brBarred", "brAllowed") } else { ("brAllowed", "brBarred") })
+            } else {
+                None
+            };
+            if marks.is_some() && (cond_s.contains("&&") || cond_s.contains("||")) {
+                panic!("ripx: compound condition around a lock/tool-choice decision is not understood: {cond_s}");
+            }
+            // the validation gate: `if !payload.errors().is_empty() { …; return Err(..) }`
+            let gate = cond_s.contains(".errors().is_empty()") && neg
+                && matches!(i.then_branch.stmts.last(), Some(syn::Stmt::Expr(syn::Expr::Return(_), _)));
+            if gate {
+                out.push(Eff::Mark("validateGate"));
+            }
+            if let Some((t, _)) = marks {
+                out.push(Eff::Mark(t));
+            }
             effects_of_block(&i.then_branch, out);
             if let Some((_, els)) = &i.else_branch {
+                if let Some((_, e)) = marks {
+                    out.push(Eff::Mark(e));
+                }
                 stmt_expr(els, out, scope_guards);
+            }
+            if marks.is_some() {
+                out.push(Eff::Mark("brEnd"));
             }
             // temporaries of the condition (e.g. a guard in `if let … = x.lock()…`) live to the end of the `if`
             for e in cond.iter().rev() {
@@ -775,7 +808,7 @@ fn main() {
     // ---- emit Lean
     let mut lean = String::new();
     lean.push_str("/- GENERATED by ripx from /repo's current source. Do not edit. -/\nnamespace Rip.Gen\n\n");
-    lean.push_str("inductive Eff\n  | publish | record | lock (n : Nat) | unlock (n : Nat) | logAppend | cacheAppend | bump\n  | subscribe | snapshot | seqLoad | createThread | runTool | emitBatch | sideEffects | runProcess | fsWrite | fsFlush\n  deriving Repr, DecidableEq\n\n");
+    lean.push_str("inductive Eff\n  | publish | record | lock (n : Nat) | unlock (n : Nat) | logAppend | cacheAppend | bump\n  | subscribe | snapshot | seqLoad | createThread | runTool | emitBatch | sideEffects | runProcess | fsWrite | fsFlush\n  | brNeedsLock | brNoLock | brBarred | brAllowed | brEnd | validateGate | httpSend\n  deriving Repr, DecidableEq\n\n");
     lean.push_str("/-- lock ids: 1 = recorded-frames buffer, 2 = task seq counter, 3 = continuity next_seq map, 4 = index, 5 = log file, 9 = other -/\n");
     lean.push_str("def effectOrders : List (Nat × List Eff) := [\n");
     for (k, (id, path, effs)) in orders.iter().enumerate() {
